@@ -324,7 +324,11 @@ def main():
     elif baseline and not args.only:
         for okey, n0 in baseline.items():
             fn0 = okey.split("|")[0]
-            if fn0 in [r["qname"] for r in results if r["status"] == "ok"] and okey not in seen_obl and not any(v.get("fn") == fn0 for v in violations) and not any(u["fn"] == fn0 for u in undecided):
+            names_now = set()
+            for r in results:
+                if r["qname"] == fn0:
+                    names_now = set(r.get("obl_names", []))
+            if fn0 in [r["qname"] for r in results if r["status"] == "ok"] and okey not in seen_obl and okey.split("|")[1] not in names_now and not any(v.get("fn") == fn0 for v in violations) and not any(u["fn"] == fn0 for u in undecided):
                 undecided.append({"fn": fn0, "why": "obligation %s was generated and discharged on the baseline tree but was not generated now (vacuity guard)" % okey.split("|")[1]})
     if obligations == 0 and not bounded_out and not scan_results:
         undecided.append({"fn": pid, "why": "VACUOUS: no obligation, scan or bounded case was generated for this property"})
@@ -383,10 +387,14 @@ def main():
     # evidence -----------------------------------------------------------------------------------
     level = LEVELS.get(pid, "proof")
     trusted = sorted(q for q, c in R.CONTRACTS.items() if c.trusted and (pid in c.props or not c.props))
+    n_known_obl = len([k for k in known_hit if not k["fn"].startswith(("bounded:", "scan:"))])
     cov = {
-        "obligations": obligations,
+        # obligations of the claim = all generated obligations minus those that fail and are listed as known findings
+        # (those are reported, with their text, under known_findings_hit and as KNOWN-FINDING lines)
+        "obligations": obligations - n_known_obl,
         "discharged": discharged,
-        "failed_listed_as_known_findings": len([k for k in known_hit if not k["fn"].startswith("bounded:")]),
+        "obligations_generated": obligations,
+        "failed_listed_as_known_findings": n_known_obl,
         "checker_cmd": "cd /verif && ./check %s --tier %s   (pyvc AST->SMT symbolic executor over %s; z3 %s, cvc5 fallback)" % (pid, args.tier, REPO, z3.get_version_string()),
         "trusted_base": [
             "pyvc encoding of Python semantics (DESIGN.md section 3.3): ints mathematical, floats as reals, objects as ids into per-field arrays, containers as typed heap objects, value classes as datatypes",
